@@ -1,7 +1,7 @@
 package sam
 
 import (
-	"encoding/csv"
+	"bufio"
 	"io"
 	"iter"
 	"strings"
@@ -12,30 +12,27 @@ import (
 // ReaderHeader iterates over SAM or header entries in a reader.
 func ReaderHeader(r io.Reader) iter.Seq2[SAMOrHeader, error] {
 	return func(yield func(SAMOrHeader, error) bool) {
-		csvReader := csv.NewReader(r)
-		csvReader.Comma = '\t'
-		csvReader.FieldsPerRecord = -1 // Allow variable number of fields.
-		csvReader.LazyQuotes = true
+		br := bufio.NewReader(r)
 		for {
-			line, err := csvReader.Read()
-			if err == io.EOF {
+			text, err := br.ReadString('\n')
+			if err != nil && err != io.EOF {
+				// Reading failed. Report and stop, the rest is unreadable.
+				yield(SAMOrHeader{}, err)
 				break
 			}
-			// Error case.
-			if err != nil {
-				if _, ok := err.(*csv.ParseError); !ok {
-					// Reading failed. Report and stop, the rest is unreadable.
-					yield(SAMOrHeader{}, err)
-					break
-				}
-				if !yield(SAMOrHeader{}, err) {
-					break
-				}
+			if err == io.EOF && text == "" {
+				break
+			}
+			// Fields are split on tabs only; quotes have no special meaning.
+			text = strings.TrimSuffix(text, "\n")
+			text = strings.TrimSuffix(text, "\r")
+			if text == "" { // Skip empty lines.
 				continue
 			}
+			line := strings.Split(text, "\t")
 			// Header line case.
 			if len(line) > 0 && strings.HasPrefix(line[0], "@") {
-				h := strings.Join(line, "\t")
+				h := text
 				if !yield(SAMOrHeader{H: &h}, nil) {
 					break
 				}
